@@ -15,7 +15,7 @@ import ast
 import copy
 import json
 import os
-from typing import Dict, List, Optional, Set
+from typing import Dict, List, Optional, Set, Tuple
 
 _HERE = os.path.dirname(os.path.dirname(os.path.abspath(__file__)))
 _FROZEN: Optional[Dict[str, List[str]]] = None
@@ -389,6 +389,8 @@ class _Inliner:
         self.counter = 0
         self.done = 0
         self.defaulted: List = []
+        self.method_helpers: Dict[str, ast.FunctionDef] = {}     # new methods of the class whose method is being processed
+        self.self_name: Optional[str] = None
 
     def _calls_in_stmt_header(self, s: ast.stmt):
         """helper calls that are evaluated exactly once when statement s is executed (not inside comprehensions, lambdas, nested
@@ -421,9 +423,19 @@ class _Inliner:
                     walk(ch)
             if isinstance(e, ast.Call) and isinstance(e.func, ast.Name) and e.func.id in self.helpers:
                 out.append(e)
+            elif isinstance(e, ast.Call) and self._method_helper_of(e) is not None:
+                out.append(e)
         for e in exprs:
             walk(e)
         return out
+
+    def _method_helper_of(self, e: ast.Call):
+        """`self.m(..)` with m a NEW method of the class being processed: the helper (self is its first parameter)"""
+        f = e.func
+        if isinstance(f, ast.Attribute) and isinstance(f.value, ast.Name) and f.value.id == self.self_name \
+                and f.attr in self.method_helpers:
+            return self.method_helpers[f.attr]
+        return None
 
     def _header_exprs(self, s: ast.stmt):
         exprs: List[ast.expr] = []
@@ -566,11 +578,24 @@ class _Inliner:
                 new += hoisted
             calls = self._calls_in_stmt_header(s)
             for c in calls:
-                h = self.helpers.get(c.func.id)
-                if h is None or h.name == owner:
-                    continue
-                self.counter += 1
-                ex = _expand(c, h, f'h{self.counter}', s)
+                mh = self._method_helper_of(c) if not isinstance(c.func, ast.Name) else None
+                if mh is not None:
+                    if mh.name == owner:
+                        continue
+                    # bind the receiver as the first argument
+                    c2 = ast.Call(func=ast.Name(id=mh.name, ctx=ast.Load()), args=[ast.Name(id=self.self_name, ctx=ast.Load())] + c.args,
+                                  keywords=c.keywords)
+                    ast.copy_location(c2, c)
+                    ast.fix_missing_locations(c2)
+                    self.counter += 1
+                    ex = _expand(c2, mh, f'h{self.counter}', s)
+                    h = mh
+                else:
+                    h = self.helpers.get(c.func.id)
+                    if h is None or h.name == owner:
+                        continue
+                    self.counter += 1
+                    ex = _expand(c, h, f'h{self.counter}', s)
                 if ex is None:
                     continue
                 pre, ret = ex
@@ -714,17 +739,34 @@ def inline_new_helpers(tree: ast.Module, module: str) -> int:
             _expose_fields(fn, obj.helpers)
 
     targets = []
+    frozen_methods = frozen.get('<methods>', {}).get(module, {})
+    new_methods_of: Dict[int, Tuple[Dict[str, ast.FunctionDef], str]] = {}
+    any_new_method = False
     for n in tree.body:
         if isinstance(n, ast.FunctionDef) and n.name not in helpers and n.name not in generators:
             targets.append(n)
         elif isinstance(n, ast.ClassDef) and n.name not in classes:
+            known_m = set(frozen_methods.get(n.name, []))
+            mh = {}
+            if n.name in frozen_methods:
+                for m in n.body:
+                    if isinstance(m, ast.FunctionDef) and m.name not in known_m and not m.decorator_list and m.args.args:
+                        h = _normalised_helper(m)
+                        if h is not None:
+                            mh[m.name] = h
+                            any_new_method = True
             for m in n.body:
-                if isinstance(m, ast.FunctionDef):
+                if isinstance(m, ast.FunctionDef) and m.name not in mh:
                     targets.append(m)
-    if not helpers and not generators and not classes and not any(isinstance(st, ast.FunctionDef) for t in targets for st in t.body):
+                    if mh and m.args.args and not any(ast.unparse(d) in ('staticmethod', 'classmethod') for d in m.decorator_list):
+                        new_methods_of[id(m)] = (mh, m.args.args[0].arg)
+    if not helpers and not generators and not classes and not any_new_method \
+            and not any(isinstance(st, ast.FunctionDef) for t in targets for st in t.body):
         return 0
     for t in targets:
+        inl.method_helpers, inl.self_name = new_methods_of.get(id(t), ({}, None))
         process(t)
+    inl.method_helpers, inl.self_name = {}, None
     ast.fix_missing_locations(tree)
     tree._inline_defaulted = inl.defaulted       # [(owner function, helper, params left at default, line, call text)]
     return inl.done
